@@ -23,7 +23,8 @@ ROOT_DECL = "mod m1;\nmod m2;\n"
 # longer than any formatted text of the scenario files: a leftover that is overwritten without
 # being truncated shows up as a `partial` file
 STALE = "// left over from an earlier run\n" + "".join(f"// stale line {k} of an older, longer text\n" for k in range(40))
-PRES = {"none": (), "bk": ("bk",), "tmp": ("tmp",), "both": ("tmp", "bk")}
+# "link": the two out-of-line module files are symbolic links to files in another directory
+PRES = {"none": (), "bk": ("bk",), "tmp": ("tmp",), "both": ("tmp", "bk"), "link": ()}
 
 
 def materialise(d, changed, formatted, pre="none"):
@@ -43,6 +44,13 @@ def materialise(d, changed, formatted, pre="none"):
             body = formatted[i]
         (d / f"m{i}.rs").write_text(body)
         orig[i] = body
+    if pre == "link":
+        real = d.parent / (d.name + "-real")
+        shutil.rmtree(real, ignore_errors=True)
+        real.mkdir()
+        for i in (1, 2):
+            shutil.move(str(d / f"m{i}.rs"), str(real / f"m{i}.rs"))
+            (d / f"m{i}.rs").symlink_to(real / f"m{i}.rs")
     return orig
 
 
@@ -98,7 +106,7 @@ def run(tier, seed, replay=None):
     if tier == "quick":
         T, F = True, False
         core_s = [((T, T, T), "none"), ((T, T, T), "bk"), ((F, T, F), "tmp"),
-                  ((T, F, T), "both"), ((F, F, F), "bk")]
+                  ((T, F, T), "both"), ((F, F, F), "bk"), ((T, T, T), "link")]
         rest = [x for x in scen if x not in core_s and any(x[0])]
         rng.shuffle(rest)
         scen = core_s + rest[:1]
@@ -182,7 +190,12 @@ def run(tier, seed, replay=None):
                     observe("done", None, r.returncode)
                     events, unknown = fsobs.to_events(calls, names, new_len)
                     run_id += 1
-                    if unknown:
+                    if pre == "link":
+                        # the syscall projection names files by the path that was opened; through a
+                        # symbolic link that is not the file that changes: these runs are judged by
+                        # the disk states (post-state and crash enumeration) only
+                        pass
+                    elif unknown:
                         # calls whose effect FsSem does not model: the inferred disk
                         # would be wrong, so this run is judged by the crash
                         # enumeration (actual disk states) only.
@@ -212,7 +225,8 @@ def run(tier, seed, replay=None):
                         ops.append({"ev": "op", "i": e["i"], "op": o or "other"})
                     ops.append({"ev": "end", "run": run_id,
                                 "status": "done" if r.returncode == 0 else "failed"})
-                    traces_op[proto] += ops
+                    if pre != "link":
+                        traces_op[proto] += ops
                     counts = fsobs.count_calls(
                         [c for c in calls if c[0] in ("openat", "write", "rename", "unlink",
                                                       "unlinkat", "renameat", "renameat2",
